@@ -317,7 +317,8 @@ fn run_many_authors(m: u32, variant: u8) -> (Vec<(&'static str, String)>, u64) {
             seed[..4].copy_from_slice(&i.to_be_bytes());
             let author = iroh_docs::Author::from_bytes(&seed);
             let (h, l) = Val::X.hash_len();
-            let (ts_a, ts_z) = if i % 2 == 0 { (T0 + 2, T0 + 1) } else { (T0 + 1, T0 + 2) };
+            // every seventh author has written at timestamp 0 only (the smallest legal value)
+            let (ts_a, ts_z) = if i % 7 == 3 { (0, 0) } else if i % 2 == 0 { (T0 + 2, T0 + 1) } else { (T0 + 1, T0 + 2) };
             for (key, ts) in [(&b"z"[..], ts_z), (&b"a"[..], ts_a)] {
                 let e = SignedEntry::from_parts(&crate::universe::ns_secret(0), &author, key, Record::new(h, l, ts));
                 let _ = sut.remote(ns, e);
